@@ -4,7 +4,10 @@
 //!  * src/codegen/testing.rs: `TestCase::run` (whole function), `get_tests`
 //!    (filter predicate, key pipeline, sort, display name / look-up key),
 //!    `run_tests` (counter state, loop source, loop body, final decision);
-//!  * src/pipeline.rs: `Package<NoCtx>::run_tests`, `Package<Ctx<C>>::run_tests`, `Package::get_tests`;
+//!  * src/pipeline.rs: `Package<NoCtx>::run_tests`, `Package<Ctx<C>>::run_tests`, `Package::get_tests`,
+//!    `Package::get_function`;
+//!  * src/codegen/mod.rs: `Module::get_function` — the key it looks a name up under
+//!    (`format!("pkg.{name}")` ↦ concatenation) and the shape of the look-up;
 //!  * src/cli.rs: `enum Command`, every arm of `cli_inner`, `cli`;
 //!  * src/typechecker/function.rs `test` and src/mir/lower.rs `test`: the
 //!    `format!("test#…")` name and the signature a test gets.
@@ -322,7 +325,7 @@ fn base_cx() -> Cx {
         ("starts_with", "RStr.starts_with"),
         ("replace", "RStr.replace"),
         ("strip_prefix", "RStr.strip_prefix"),
-        ("get_function", "Module.get_function"),
+        ("get_function", "Module_get_function"),
         ("map_err", "RResult_map_err"),
     ] {
         cx.methods.insert(m.into(), Meth::Pure(f.into()));
@@ -756,7 +759,7 @@ fn cli_cx() -> Cx {
     cx.methods
         .insert("run_tests".into(), Meth::FallibleDbg("Package_run_tests".into()));
     cx.methods
-        .insert("get_function".into(), Meth::Pure("Package.get_function".into()));
+        .insert("get_function".into(), Meth::Pure("Package_get_function".into()));
     for (p, f) in [
         ("FileTree::read", "W.FileTree_read"),
         ("std::fs::read_to_string", "W.read_to_string"),
@@ -830,6 +833,293 @@ fn package_run_tests(pipeline: &syn::File) -> R {
         "/-- `Package::get_tests` (src/pipeline.rs) -/\ndef Package_get_tests (dbg : Bool) (self : Package) : Res (List TestCase) :=\n {body}\n\n"
     ));
     Ok(out)
+}
+
+// ------------------------------------------------- Module::get_function (the look-up key)
+
+/// `format!("<text>{ident}<text>…")` (plain `{ident}` placeholders only, no further
+/// arguments) ↦ `str_concat([<text>, ident, …])`; any other `format!` is left alone (and
+/// then refused by r2l as an unsupported macro).
+struct FormatConcat;
+impl VisitMut for FormatConcat {
+    fn visit_expr_mut(&mut self, e: &mut Expr) {
+        syn::visit_mut::visit_expr_mut(self, e);
+        let Expr::Macro(m) = e else { return };
+        if !m.mac.path.is_ident("format") {
+            return;
+        }
+        use syn::parse::Parser;
+        let Ok(args) = syn::punctuated::Punctuated::<Expr, syn::Token![,]>::parse_terminated.parse2(m.mac.tokens.clone()) else {
+            return;
+        };
+        let mut args = args.into_iter();
+        let Some(Expr::Lit(syn::ExprLit { lit: syn::Lit::Str(lit), .. })) = args.next() else { return };
+        // positional `{}` placeholders take the remaining arguments (plain variables) in order
+        let mut positional: Vec<String> = vec![];
+        for a in args {
+            let a = match a {
+                Expr::Reference(r) => *r.expr,
+                other => other,
+            };
+            match a {
+                Expr::Path(p) if p.path.get_ident().is_some() => positional.push(p.path.get_ident().unwrap().to_string()),
+                _ => return,
+            }
+        }
+        positional.reverse();
+        let s = lit.value();
+        let mut pieces: Vec<String> = vec![];
+        let mut text = String::new();
+        let mut it = s.chars().peekable();
+        while let Some(c) = it.next() {
+            match c {
+                '{' if it.peek() == Some(&'{') => {
+                    it.next();
+                    text.push('{');
+                }
+                '}' if it.peek() == Some(&'}') => {
+                    it.next();
+                    text.push('}');
+                }
+                '{' => {
+                    let mut id = String::new();
+                    loop {
+                        match it.next() {
+                            Some('}') => break,
+                            Some(ch) => id.push(ch),
+                            None => return,
+                        }
+                    }
+                    if id.is_empty() {
+                        match positional.pop() {
+                            Some(a) => id = a,
+                            None => return,
+                        }
+                    }
+                    if syn::parse_str::<syn::Ident>(&id).is_err() {
+                        return;
+                    }
+                    if !text.is_empty() {
+                        pieces.push(format!("{text:?}"));
+                        text.clear();
+                    }
+                    pieces.push(id);
+                }
+                '}' => return,
+                c => text.push(c),
+            }
+        }
+        if !text.is_empty() {
+            pieces.push(format!("{text:?}"));
+        }
+        if !positional.is_empty() {
+            return;
+        }
+        *e = syn::parse_str(&format!("str_concat([{}])", pieces.join(", "))).unwrap();
+    }
+}
+
+/// How many times an identifier is bound by a `let` / closure parameter pattern.
+struct Binds<'a>(&'a str, usize);
+impl<'ast> Visit<'ast> for Binds<'_> {
+    fn visit_pat_ident(&mut self, p: &'ast syn::PatIdent) {
+        if p.ident == self.0 {
+            self.1 += 1;
+        }
+        syn::visit::visit_pat_ident(self, p);
+    }
+}
+
+/// Every `self.functions.<method>(args)` call.
+struct TableCalls(Vec<(String, String)>);
+impl<'ast> Visit<'ast> for TableCalls {
+    fn visit_expr_method_call(&mut self, mc: &'ast syn::ExprMethodCall) {
+        if mc.receiver.to_token_stream().to_string().replace(' ', "") == "self.functions" {
+            let args: Vec<String> =
+                mc.args.iter().map(|a| a.to_token_stream().to_string().replace(' ', "")).collect();
+            self.0.push((mc.method.to_string(), args.join(",")));
+        }
+        syn::visit::visit_expr_method_call(self, mc);
+    }
+}
+
+struct CallsOf<'a>(&'a str, Vec<String>);
+impl<'ast> Visit<'ast> for CallsOf<'_> {
+    fn visit_expr_method_call(&mut self, mc: &'ast syn::ExprMethodCall) {
+        if mc.method == self.0 {
+            let args: Vec<String> =
+                mc.args.iter().map(|a| a.to_token_stream().to_string().replace(' ', "")).collect();
+            self.1.push(args.join(","));
+        }
+        syn::visit::visit_expr_method_call(self, mc);
+    }
+}
+
+fn let_named<'a>(stmts: &'a [Stmt], name: &str) -> Vec<(usize, &'a syn::Local)> {
+    stmts
+        .iter()
+        .enumerate()
+        .filter_map(|(i, s)| match s {
+            Stmt::Local(l) => match &l.pat {
+                Pat::Ident(pi) if pi.ident == name => Some((i, l)),
+                Pat::Type(pt) => match &*pt.pat {
+                    Pat::Ident(pi) if pi.ident == name => Some((i, l)),
+                    _ => None,
+                },
+                _ => None,
+            },
+            _ => None,
+        })
+        .collect()
+}
+
+/// `Module::get_function` (src/codegen/mod.rs): the key it looks a name up under, and the
+/// declaration-level facts that make the hand model `TR.get_function_at` (one table look-up
+/// with that key, the handle is the looked-up entry's function) speak for the code:
+///   * there is one `let name = <expr over the parameter name>;` (no statement before it
+///     touches the table) — translated;
+///   * `name` is bound nowhere else, `self.functions` is consulted by exactly one
+///     `.get(&name)` (and `.keys()` for the error text);
+///   * the `let` holding that look-up binds `function_info`, `let id = function_info.id;`
+///     and the finalized function is `get_finalized_function(id)`, once.
+/// Statements under `#[cfg(feature = "verif-hooks")]` are skipped.  Anything else: failure.
+fn module_get_function(repo: &Path) -> R {
+    let codegen = find::parse(repo, "src/codegen/mod.rs")?;
+    let mut f = find::func(&codegen, "get_function", Some("Module<Ctx>"))?;
+    f.block.stmts.retain(|s| {
+        let attrs: &[syn::Attribute] = match s {
+            Stmt::Local(l) => &l.attrs,
+            Stmt::Expr(Expr::Block(b), _) => &b.attrs,
+            Stmt::Expr(Expr::If(b), _) => &b.attrs,
+            _ => &[],
+        };
+        !attrs.iter().any(|a| a.to_token_stream().to_string().contains("verif-hooks"))
+    });
+    // the parameter
+    let params: Vec<String> = f
+        .sig
+        .inputs
+        .iter()
+        .filter_map(|a| match a {
+            syn::FnArg::Typed(t) => Some(format!(
+                "{}:{}",
+                t.pat.to_token_stream(),
+                t.ty.to_token_stream().to_string().replace(' ', "")
+            )),
+            _ => None,
+        })
+        .collect();
+    if params != ["name:&str"] {
+        return Err(format!("Module::get_function: parameters {params:?} are not (name: &str)"));
+    }
+    let stmts = &f.block.stmts;
+    let names = let_named(stmts, "name");
+    let mut nb = Binds("name", 0);
+    nb.visit_block(&f.block);
+    if names.len() != 1 || nb.1 != 1 {
+        return Err(format!(
+            "Module::get_function: expected one `let name = …;` and no other binding of `name` (found {} top-level, {} in all)",
+            names.len(),
+            nb.1
+        ));
+    }
+    // statements before it (a lock acquisition, a `let` of something else) must not touch the table
+    let mut before = TableCalls(vec![]);
+    for st in &stmts[..names[0].0] {
+        before.visit_stmt(st);
+    }
+    if !before.0.is_empty() {
+        return Err(format!("Module::get_function: `self.functions` is consulted before the key is computed ({:?})", before.0));
+    }
+    let init = names[0].1.init.as_ref().ok_or("Module::get_function: `let name` without initialiser")?;
+    if init.diverge.is_some() {
+        return Err("Module::get_function: `let name … else`".into());
+    }
+    let mut key_expr = (*init.expr).clone();
+    FormatConcat.visit_expr_mut(&mut key_expr);
+    let mut holder: syn::Block = syn::parse_str("{ 0 }").unwrap();
+    holder.stmts = vec![Stmt::Expr(key_expr, None)];
+    rewrite(&mut holder)?;
+    let mut cx = base_cx();
+    cx.paths.insert("str_concat".into(), "RStr.concat".into());
+    cx.paths.insert("String::from".into(), "id".into());
+    for m in ["to_string", "to_owned", "as_str", "into"] {
+        cx.methods.insert(m.into(), Meth::Identity);
+    }
+    let Some(Stmt::Expr(key_expr, None)) = holder.stmts.first() else {
+        return Err("Module::get_function: key expression lost".into());
+    };
+    let key = cx.m(key_expr)?;
+
+    // the table is consulted once, with that key
+    let mut tc = TableCalls(vec![]);
+    tc.visit_block(&f.block);
+    let lookups: Vec<&(String, String)> = tc.0.iter().filter(|(m, _)| m != "keys").collect();
+    if lookups.len() != 1 || lookups[0].0 != "get" || lookups[0].1 != "&name" {
+        return Err(format!(
+            "Module::get_function: `self.functions` must be consulted by exactly one `.get(&name)` (found {:?})",
+            tc.0
+        ));
+    }
+    let infos = let_named(stmts, "function_info");
+    let mut lk = TableCalls(vec![]);
+    if let [(_, l)] = infos.as_slice() {
+        if let Some(i) = &l.init {
+            lk.visit_expr(&i.expr);
+        }
+    }
+    if !lk.0.iter().any(|(m, _)| m == "get") {
+        return Err("Module::get_function: the look-up is not bound by `let function_info = self.functions.get(&name)…`".into());
+    }
+    let ids = let_named(stmts, "id");
+    let id_ok = match ids.as_slice() {
+        [(_, l)] => l
+            .init
+            .as_ref()
+            .is_some_and(|i| i.expr.to_token_stream().to_string().replace(' ', "") == "function_info.id"),
+        _ => false,
+    };
+    let mut fin = CallsOf("get_finalized_function", vec![]);
+    fin.visit_block(&f.block);
+    if !id_ok || fin.1 != ["id"] {
+        return Err(format!(
+            "Module::get_function: the handle must be `get_finalized_function(id)` with `let id = function_info.id;` (found {:?})",
+            fin.1
+        ));
+    }
+    let mut out = format!(
+        "/-- the key `Module::get_function(name)` looks up in `Module.functions` (src/codegen/mod.rs: the first `let name = …;`) -/\ndef get_function_key (name : Name) : Name := Id.run\n {key}\n\n"
+    );
+    out.push_str("/-- `Module::get_function::<F>(name)` (src/codegen/mod.rs): one look-up of the generated key, then the signature check; the handle is the looked-up entry's function (structure checked by the translator) -/\ndef Module_get_function (self : Module) (want : Sig) (name : Name) : RResult TypedFunc FnErr :=\n get_function_at self.functions want (get_function_key name)\n\n");
+    Ok(out)
+}
+
+/// `Package::get_function` (src/pipeline.rs): the requested type `F` is the model's `want`.
+fn package_get_function(pipeline: &syn::File) -> R {
+    let mut f = find::func(pipeline, "get_function", Some("Package<Ctx>"))?;
+    rewrite(&mut f.block)?;
+    struct AddWant(usize);
+    impl VisitMut for AddWant {
+        fn visit_expr_method_call_mut(&mut self, mc: &mut syn::ExprMethodCall) {
+            syn::visit_mut::visit_expr_method_call_mut(self, mc);
+            if mc.method == "get_function" && mc.turbofish.is_none() {
+                let old: Vec<Expr> = mc.args.iter().cloned().collect();
+                let mut args: Vec<Expr> = vec![syn::parse_str("want").unwrap()];
+                args.extend(old);
+                mc.args = args.into_iter().collect();
+                self.0 += 1;
+            }
+        }
+    }
+    let mut aw = AddWant(0);
+    aw.visit_block_mut(&mut f.block);
+    if aw.0 != 1 {
+        return Err(format!("Package::get_function: expected one inner `.get_function(…)`, found {}", aw.0));
+    }
+    let body = base_cx().m(&Expr::Block(syn::ExprBlock { attrs: vec![], label: None, block: f.block.clone() }))?;
+    Ok(format!(
+        "/-- `Package::get_function::<F>(name)` (src/pipeline.rs) -/\ndef Package_get_function (self : Package) (want : Sig) (name : Name) : RResult TypedFunc FnErr := Id.run\n {body}\n\n"
+    ))
 }
 
 // ------------------------------------------------- how a test becomes a function
@@ -961,9 +1251,11 @@ pub fn testrunner(repo: &Path) -> R {
     let pipeline = find::parse(repo, "src/pipeline.rs")?;
     let cli = find::parse(repo, "src/cli.rs")?;
     let mut out = String::from(
-        "/- GENERATED by /verif/extract (targets/c19.rs) from src/codegen/testing.rs, src/pipeline.rs, src/cli.rs, src/typechecker/function.rs, src/mir/lower.rs — do not edit. -/\nimport RotoV.Model.TestRunner\nset_option linter.unusedVariables false\nnamespace RotoV.Gen.TestRunner\nopen RotoV RotoV.TR\n\n",
+        "/- GENERATED by /verif/extract (targets/c19.rs) from src/codegen/testing.rs, src/codegen/mod.rs, src/pipeline.rs, src/cli.rs, src/typechecker/function.rs, src/mir/lower.rs — do not edit. -/\nimport RotoV.Model.TestRunner\nset_option linter.unusedVariables false\nnamespace RotoV.Gen.TestRunner\nopen RotoV RotoV.TR\n\n",
     );
     out.push_str(&test_items(repo)?);
+    out.push_str(&module_get_function(repo)?);
+    out.push_str(&package_get_function(&pipeline)?);
     out.push_str(&testcase_run(&testing)?);
     out.push_str(&get_tests(&testing)?);
     out.push_str(&run_tests(&testing)?);
